@@ -84,11 +84,15 @@ def compile(
         tuple(id(c) for c in constructors or ()),
         repr(sorted(settings.items(), key=lambda kv: kv[0])),
     )
-    if key in cache:
+    # NOTE: str() of a Text is not its content (str(Buffer(...)) == 'Buffer()'): only grammars given as str are cached
+    cacheable = isinstance(grammar, str)
+    if cacheable and key in cache:
         model = cache[key]
     else:
         gen = TatSuParserGenerator(name, **settings)
-        model = cache[key] = gen.parse(grammar, **settings)
+        model = gen.parse(grammar, **settings)
+        if cacheable:
+            cache[key] = model
     if semantics is not None:
         model.semantics = semantics
     elif asmodel:
